@@ -4,7 +4,7 @@ and `src/miniscript/types/extra_props.rs` (`TimelockInfo`) that C18 is about.
 
 `And(Vec<Arc<Policy>>)` / `Or(Vec<(usize, Arc<Policy>)>)` are public enum variants: any number
 of children can be built through the API (the parser only produces two).  The model keeps the
-Rust's behaviour for every length, including the `unwrap()` panics of `lift`.
+Rust's behaviour for every length (an empty `And` / `Or` is refused by `lift`).
 -/
 import MsVerif.Model.Semantic
 
@@ -62,7 +62,7 @@ def checkTimelocks (c : CPolicy) : Bool := !(timelockInfo c).containsCombination
 inductive LiftRes
   | ok (p : Policy)
   | err               -- `Err(ConcretePolicy(HeightTimelockCombination))`
-  | panic             -- `Threshold::new(..).unwrap()` on an `And` with < 2 or an `Or` with 0 children
+  | errThreshold      -- `Err(Threshold(..))`: an `And` / `Or` without children
   deriving Repr, Inhabited
 
 /-- `subs.iter().map(lift).collect::<Result<Vec<_>, _>>()` given the children's outcomes, in
@@ -71,7 +71,7 @@ def collectLift : List LiftRes → (List Policy → LiftRes) → LiftRes
   | [], k => k []
   | .ok p :: rest, k => collectLift rest (fun ps => k (p :: ps))
   | .err :: _, _ => .err
-  | .panic :: _, _ => .panic
+  | .errThreshold :: _, _ => .errThreshold
 
 mutual
 /-- `impl Liftable for Concrete` -/
@@ -82,13 +82,13 @@ def lift : CPolicy → LiftRes
   | .and subs =>
     if !checkTimelocks (.and subs) then .err else
     collectLift (liftList subs) fun ss =>
-      -- `Threshold::new(2, semantic_subs).unwrap()`
-      if 2 ≤ ss.length then .ok (Sem.normalized (.thresh 2 ss)) else .panic
+      -- `Threshold::new(semantic_subs.len(), semantic_subs).map_err(Error::Threshold)?`: k = n = 0 is refused
+      if 1 ≤ ss.length then .ok (Sem.normalized (.thresh ss.length ss)) else .errThreshold
   | .or subs =>
     if !checkTimelocks (.or subs) then .err else
     collectLift (liftList subs) fun ss =>
-      -- `Threshold::new(1, semantic_subs).unwrap()`
-      if 1 ≤ ss.length then .ok (Sem.normalized (.thresh 1 ss)) else .panic
+      -- `Threshold::new(1, semantic_subs).map_err(Error::Threshold)?`: 1 > n = 0 is refused
+      if 1 ≤ ss.length then .ok (Sem.normalized (.thresh 1 ss)) else .errThreshold
   | .thresh k subs =>
     if !checkTimelocks (.thresh k subs) then .err else
     collectLift (liftList subs) fun ss => .ok (Sem.normalized (.thresh k ss))
@@ -127,16 +127,16 @@ end MsVerif.Pol.Conc
 /-! ## Predicates used in the statements of the C18 theorems (not Rust functions) -/
 namespace MsVerif.Pol
 
-/-- every `and` node has exactly two children (what the parser produces and the compiler
-accepts; the enum itself allows any number) -/
-def andBinary : CPolicy → Bool
-  | .and subs => subs.length == 2 && go subs
-  | .or subs => go subs
+/-- every `and` / `or` node has at least one child (an empty one cannot be lifted:
+`Threshold` has no 0-of-0) -/
+def andOrNonEmpty : CPolicy → Bool
+  | .and subs => decide (1 ≤ subs.length) && go subs
+  | .or subs => decide (1 ≤ subs.length) && go subs
   | .thresh _ subs => go subs
   | _ => true
 where go : List CPolicy → Bool
   | [] => true
-  | p :: ps => andBinary p && go ps
+  | p :: ps => andOrNonEmpty p && go ps
 
 /-- what the `Threshold` constructors guarantee, and `or` is not empty (`and` may be) -/
 def WFC : CPolicy → Bool
